@@ -50,6 +50,19 @@ Definition named_member (s : bstep) : string :=
   | SWithoutExpiry => "validate_exp" | SWithAudience _ => "aud" | SWithIssuer _ => "iss" | SWithSubject _ => "sub"
   | SWithLeeway _ => "leeway" | SWithAlgorithm _ => "alg" | SWithRequiredClaim _ => "required" end.
 
+(* "every step sets its own setting to a function of its argument only" (independence of the history):
+   the value the named member must have afterwards, when it does not depend on the policy before *)
+Definition set_value (s : bstep) : option json :=
+  match s with
+  | SWithoutExpiry => Some (JBool false)
+  | SWithAudience a => Some (JArr [JStr a])
+  | SWithIssuer a => Some (JStr a)
+  | SWithSubject a => Some (JStr a)
+  | SWithLeeway n => Some (JNum (dec_of_N n))
+  | SWithAlgorithm a => Some (JStr (jalg_name a))
+  | SWithRequiredClaim _ => None          (* adds to a set: depends on the set before *)
+  end.
+
 Definition frame_oracle (before : json) (s : bstep) (o : json) : option string :=
   if obs_is "panic" o then Some "builder step panics"
   else match before, obs_val o with
@@ -59,8 +72,18 @@ Definition frame_oracle (before : json) (s : bstep) (o : json) : option string :
                                       | Some v' => if json_eqb v v' then [] else [k]
                                       | None => [k] end) bk in
            match filter (fun k => negb (String.eqb k (named_member s))) changed with
-           | [] => None
-           | k :: _ => Some ("the step changed the setting " ++ k ++ " which it does not name") end
+           | k :: _ => Some ("the step changed the setting " ++ k ++ " which it does not name")
+           | [] =>
+               match set_value s, obj_get (named_member s) ak with
+               | Some want, Some got => if json_eqb want got then None
+                                        else Some ("the step does not set " ++ named_member s ++ " to the value given by its argument alone (it depends on the policy before)")
+               | Some _, None => Some "unreadable policy"
+               | None, Some (JArr l) => (match s with
+                                         | SWithRequiredClaim c => if existsb (fun x => json_eqb x (JStr c)) l then None else Some "the required claim was not added"
+                                         | _ => None end)
+               | None, _ => Some "the required-claims set is missing after with_required_claim"
+               end
+           end
        | _, _ => Some "unreadable policy" end.
 
 Definition case_bstep (input obs : json) : verdict :=
